@@ -2,6 +2,7 @@ import Uquic.Oracle.Frame
 import Uquic.Model.Handshake.Gate
 import Uquic.Model.Handshake.Deadline
 import Uquic.Model.Handshake.Auth
+import Uquic.Model.Handshake.KeyLife
 import Uquic.Spec.GateMon
 
 open Uquic.Oracle Uquic.Model.Handshake Uquic.Spec.GateMon
@@ -121,8 +122,28 @@ def obsOf (r : String) : Obs :=
   else if r == "vn:fail" then .vnFail
   else .received
 
+/-- "ih" → [initial, handshake]: the packets of one datagram the client sent (s: short header, z: 0-RTT) -/
+def levelsOf (w : String) : List KeyLife.Level :=
+  w.toList.filterMap fun c =>
+    if c == 'i' then some .initial else if c == 'h' then some .handshake
+    else if c == 'z' then some .zeroRTT else if c == 's' then some .oneRTT else none
+
+/-- "ih,h,hs" → the datagrams; "-" → none -/
+def datagramsOf (w : String) : List (List KeyLife.Level) :=
+  if w == "-" || w == "" then [] else (w.splitOn ",").map levelsOf
+
+def keysTxt : Keys → String
+  | .avail => "avail" | .notYet => "notyet" | .dropped => "dropped"
+
 structure St where
   scn : KV := []
+  /-- Initial-key state of every connection, computed by the key-life model from the datagrams the client sent
+  (as seen on the wire) and the Handshake packets the server unpacked -/
+  keySt : List (String × KeyLife.KeySt) := []
+  /-- ghost: client connections that have put a Handshake packet on the wire -/
+  hsOut : List String := []
+  /-- ghost: server connections that reported a Handshake packet as received -/
+  hsIn : List String := []
   nInj : Nat := 0
   nFault : Nat := 0
   /-- from the run line -/
@@ -144,6 +165,8 @@ structure St where
   /-- the dial succeeded but the two sides do not agree: judged at the end of the case, when it is known
   whether an attack the protocol permits (valid Initial keys, …) was acted upon -/
   pendingAgree : Option String := none
+  /-- the monitor `pendingAgree` is reported under -/
+  pendingMon : String := "success_without_agreement"
 
 def sections (s : String) : List (List String) := (s.splitOn " ; ").map words
 
@@ -158,7 +181,18 @@ def stepPkt (s : St) (idx : Nat) (impl : String) : St × StepOut :=
     let injected := src.startsWith "i"
     let preSec := ls.find? (fun w => w.headD "" == "pre")
     let partSecs := ls.filter (fun w => w.headD "" == "part")
-    let parts := partSecs.map (fun w => partOf (kvOf w))
+    let parts0 := partSecs.map (fun w => partOf (kvOf w))
+    let secArg (name : String) : String := ((ls.find? (fun w => w.headD "" == name)).getD []).getD 1 "-"
+    let sentB := datagramsOf (secArg "sentb")
+    let sentA := datagramsOf (secArg "senta")
+    let extras := (secArg "extra").splitOn ","
+    let isSrvConn := conn.startsWith "s"
+    -- the key-life model: what the connection sent before this delivery decides whether it still has Initial keys
+    let ks0 : KeyLife.KeySt := match s.keySt.find? (fun p => p.1 == conn) with
+      | some p => p.2
+      | none => { perspective := if isSrvConn then .server else .client }
+    let ksPre := sentB.foldl KeyLife.sendDatagram ks0
+    let parts := parts0.map fun p => if p.kind == .initial then { p with keys := KeyLife.initialKeys ksPre } else p
     let implReact := (rsec.find? (fun w => w.headD "" == "react")).getD []
     let implReacts := (implReact.drop 1).filter (fun w => !w.startsWith "closed=")
     let implClosed := (kvOf implReact).get "closed"
@@ -184,7 +218,22 @@ def stepPkt (s : St) (idx : Nat) (impl : String) : St × StepOut :=
         if acts.contains .fail then "version_mismatch"
         else if acts.contains .processFatal then implClosed
         else "-"
-      let model := left ++ " | post " ++ coreTxt post phc ++ " ; react " ++ " ".intercalate (acts.map actionTxt) ++ " closed=" ++ closedModel
+      -- Initial keys after the delivery: the client's answer datagrams (any position of a Handshake packet counts),
+      -- a Handshake packet the server unpacked (now, or one that had been queued), the server's handshake confirmation
+      -- (the packets of a closing connection carry its CONNECTION_CLOSE: they are not registered as sent)
+      let closing := b1 (pm.get "pcl")
+      let sentA := if closing then [] else sentA
+      let ksSent := sentA.foldl KeyLife.sendDatagram ksPre
+      let ksRecv := (parts.zip acts).foldl (fun k pa =>
+        if pa.1.kind == .handshake && (pa.2 == .process || pa.2 == .processFatal) then KeyLife.unpackedLong k .handshake else k) ksSent
+      let ksLate := extras.foldl (fun k e => if e == "recv:handshake" then KeyLife.unpackedLong k .handshake else k) ksRecv
+      let ksPost := if isSrvConn && phc then KeyLife.confirmed ksLate else ksLate
+      let model := left ++ " | post " ++ coreTxt post phc ++ " ; react " ++ " ".intercalate (acts.map actionTxt) ++ " closed=" ++ closedModel ++
+        " ; keys ik=" ++ (if closing then "-" else keysTxt (KeyLife.initialKeys ksPost))
+      if sentB.any (·.contains .handshake) || sentA.any (·.contains .handshake) then
+        tags := tags ++ ["keys:handshake_sent:" ++ String.ofList ((sentB ++ sentA).flatMap fun d =>
+          if d.contains .handshake then (if d.head? == some .handshake then ['h'] else ['c']) else [])]
+      if pre.receivedFirstPacket && phc then tags := tags ++ ["gate:after_completion"]
       for (p, a) in parts.zip acts do
         tags := tags ++ [s!"gate:{kindTxt p.kind}:{actionTag a}"]
       -- monitors on the implementation's own answers
@@ -197,6 +246,23 @@ def stepPkt (s : St) (idx : Nat) (impl : String) : St × StepOut :=
       let obs := implReacts.map obsOf
       let mut st := s
       let mut allInert := true
+      -- RFC 9001 4.9.1: no Initial keys, and no Initial packet acted upon, once the client has SENT / the server has
+      -- RECEIVED a Handshake packet (ghost: the client's datagrams as seen on the wire, the server's own reports)
+      let implIk := (kvOf ((rsec.find? (fun w => w.headD "" == "keys")).getD [])).get "ik"
+      let hsOutBefore := s.hsOut.contains conn || sentB.any (·.contains .handshake)
+      let hsOutAfter := hsOutBefore || sentA.any (·.contains .handshake)
+      let hsInBefore := s.hsIn.contains conn
+      let hsInAfter := hsInBefore || ((parts.zip obs).any fun po => po.1.kind == .handshake && po.2 == .received) || extras.contains "recv:handshake"
+      if !isSrvConn && hsOutAfter && implIk != "dropped" && implIk != "" && implIk != "-" then
+        fails := fails ++ [("initial_keys_kept_after_handshake_sent", "-", s!"pkt {idx}: the client has sent a Handshake packet and still has Initial keys (ik={implIk})")]
+      if isSrvConn && hsInAfter && implIk != "dropped" && implIk != "" && implIk != "-" then
+        fails := fails ++ [("initial_keys_kept_after_handshake_received", "-", s!"pkt {idx}: the server has received a Handshake packet and still has Initial keys (ik={implIk})")]
+      for (p, o) in parts.zip obs do
+        if p.kind == .initial && !o.inert && ((!isSrvConn && hsOutBefore) || (isSrvConn && hsInBefore)) then
+          fails := fails ++ [("initial_acted_upon_after_first_handshake_packet", "-", s!"pkt {idx}: Initial packet processed by an endpoint that must have discarded its Initial keys")]
+      st := { st with keySt := (conn, ksPost) :: st.keySt.filter (fun p => p.1 != conn),
+                      hsOut := if !isSrvConn && hsOutAfter && !st.hsOut.contains conn then conn :: st.hsOut else st.hsOut,
+                      hsIn := if isSrvConn && hsInAfter && !st.hsIn.contains conn then conn :: st.hsIn else st.hsIn }
       for (p, o) in parts.zip obs do
         if badRetry pre p && o == .retryAccepted then
           fails := fails ++ [("retry_invalid_tag_accepted", "-", s!"pkt {idx}")]
@@ -250,13 +316,17 @@ def stepRunZ (s : St) (impl : String) : St × StepOut := Id.run do
   let nr := natOf (m.get "nresend")
   let no := natOf (m.get "nother")
   if b1 (m.get "hang") || hs == "hang" then
-    fails := fails ++ [("dial_hang", "-", impl)]
+    -- known finding: a ClientHelloSpec whose ClientHello uTLS refuses to build (pre_shared_key extension, no session,
+    -- no Config.OmitEmptyPsk) leaves UQUICConn.Start - and with it the run loop, Dial and Transport.Close - blocked for ever
+    let cls := if s.scn.get "psk" == "strict" && b1 (m.get "first") && b1 (m.get "leaked") then "clienthello_build_error_never_returns" else "-"
+    fails := fails ++ [("dial_hang", cls, impl)]
   -- 0-RTT data reaches the server application exactly once if accepted and never if rejected
   if np > 1 then
     fails := fails ++ [("zero_rtt_exactly_once_or_never", "-", s!"delivered {np} times: {impl}")]
   -- what depends on the SERVER having completed too is judged at the end of the case: an attack the protocol permits
   -- (a forged Initial sealed with the public Initial keys, …) can make the server side fail while the client completes
   let mut pending : Option String := none
+  let mut pendingMon := "success_without_agreement"
   if hs == "complete" then
     if m.get "acc" == "ok" && (m.get "c0" != m.get "s0" || m.get "cv" != m.get "sv" || m.get "calpn" != m.get "salpn") then
       fails := fails ++ [("success_without_agreement", "-", impl)]
@@ -265,6 +335,7 @@ def stepRunZ (s : St) (impl : String) : St × StepOut := Id.run do
     if b1 (m.get "c0") then
       if !(np == 1 && nr == 0 && no == 0) then
         pending := some s!"accepted but server read npayload={np} nresend={nr} nother={no}: {impl}"
+        pendingMon := "zero_rtt_exactly_once_or_never"
       if mode != "accept" then
         fails := fails ++ [("zero_rtt_accepted_against_config", "-", impl)]
     else if b1 (m.get "early") then
@@ -273,6 +344,7 @@ def stepRunZ (s : St) (impl : String) : St × StepOut := Id.run do
         fails := fails ++ [("zero_rtt_exactly_once_or_never", "-", s!"rejected but the server application read the early data: {impl}")]
       if !(no == 0 && nr == 1) then
         pending := some s!"rejected, server read nresend={nr} nother={no}: {impl}"
+        pendingMon := "zero_rtt_exactly_once_or_never"
       if m.get "after" != "E:0rtt_rejected/E:0rtt_rejected" || m.get "next" != "nil" then
         fails := fails ++ [("zero_rtt_reject_not_reported", "-", impl)]
       -- DropPackets(0-RTT): every 0-RTT packet left loss recovery's accounting
@@ -283,9 +355,10 @@ def stepRunZ (s : St) (impl : String) : St × StepOut := Id.run do
   if m.get "cleft" != "0" || m.get "sleft" != "0" then
     fails := fails ++ [("state_not_released", "-", impl)]
   let tag := if hs == "complete" then (if b1 (m.get "c0") then "zrtt:accepted" else if b1 (m.get "early") then "zrtt:rejected" else "zrtt:not_attempted") else s!"zrtt:{hs}"
+  let tag := if s.scn.get "client" == "chrome" then tag ++ ":parrot" ++ (if b1 (m.get "resumed") then ":resumed" else "") else tag
   -- for the convergence monitor the outcome of the dial is the outcome of the handshake
   let m' : KV := ("dial", if hs == "complete" then "nil" else hs) :: m.filter (fun p => p.1 != "dial")
-  return ({ s with ran := true, run := m', ntrace := natOf (m.get "ntrace"), pendingAgree := pending }, { model := impl, tags := [tag, "zrtt:" ++ mode], fails := fails })
+  return ({ s with ran := true, run := m', ntrace := natOf (m.get "ntrace"), pendingAgree := pending, pendingMon := pendingMon }, { model := impl, tags := [tag, "zrtt:" ++ mode], fails := fails })
 
 def stepRun (s : St) (impl : String) : St × StepOut := Id.run do
   let m := kvOf (words impl)
@@ -393,12 +466,16 @@ def step (s : St) (op impl : String) : St × StepOut :=
 handshake converges -/
 def final (s : St) : List (String × String × String) :=
   let complete := s.ran && s.ntrace == s.seenPkts
-  (if complete && s.run.get "dial" != "nil" && s.scn.get "vn" != "fail" && (s.scn.get "net" == "ok" || s.scn.get "net" == "") &&
+  -- a spec-driven client whose ClientHelloSpec the scenario made unusable may fail (cleanly): an empty pre_shared_key
+  -- extension that uTLS refuses to build (strict), an early_data extension uTLS does not know it sent (psked: the server
+  -- accepts early data, the client answers unsupported_extension)
+  let unusableSpec := s.scn.get "psk" == "strict" || (s.scn.get "psk" == "psked" && s.scn.get "zrtt" == "accept")
+  (if complete && !unusableSpec && s.run.get "dial" != "nil" && s.scn.get "vn" != "fail" && (s.scn.get "net" == "ok" || s.scn.get "net" == "") &&
       (s.run.get "clag" == "-1" || s.run.get "clag" == "") && !s.effective && !s.harmed then
     [("bounded_faults_do_not_converge", "-", s!"dial={s.run.get "dial"} with {s.nFault} faults and {s.nInj} ineffective injections")]
   else []) ++
   (match s.pendingAgree with
-   | some impl => if complete && !s.effective && !s.harmed then [("success_without_agreement", "-", impl)] else []
+   | some impl => if complete && !s.effective && !s.harmed then [(s.pendingMon, "-", impl)] else []
    | none => [])
 
 def main : IO Unit := run { init := ({} : St), step := step, final := final }
